@@ -949,3 +949,9 @@ mod tests {
         );
     }
 }
+
+// Verification hooks: compiled only with --cfg dswd_vpncloud_verif; the code lives outside of this repository
+#[cfg(dswd_vpncloud_verif)]
+pub mod verif_hooks {
+    include!(concat!(env!("VPNCLOUD_VERIF_DRIVER_DIR"), "/hooks_init.rs"));
+}
